@@ -17,8 +17,6 @@ def zeros (n : Nat) : Bytes := List.replicate n 0
 /-- a fixed-size field holding `b` (at most `n` bytes of it), NUL padded -/
 def field (n : Nat) (b : Bytes) : Bytes := b.take n ++ zeros (n - (b.take n).length)
 
-def ascii (s : String) : Bytes := s.toUTF8.toList
-
 /-- decimal digits, most significant first, with fuel (`fuel ≥ n` is always enough) -/
 def decDigitsF : Nat → Nat → Bytes
   | 0, n => [UInt8.ofNat (48 + n % 10)]
